@@ -349,7 +349,7 @@ def main(argv):
         ck.coq_gates(["Base", "C34"], THEOREMS, "EV.C34.Props")
     if bins:
         if ok or os.path.exists(os.path.join(COQ, "theories/C34/Corr.vo")):
-            correspondence(ck, bins["c34"], ck.scale(1500, 20000))
+            correspondence(ck, bins["c34"], ck.scale(1500, 8000))
         if ck.broken:
             ck.deep = True
         search(ck, bins["c34"], ck.scale(20000, 400000), ck.scale(12, 24), ck.scale(6, 10))
